@@ -60,7 +60,9 @@ def attachment_prefix_lines(text):
     from bluebell.akn import FAILURE
     out = []
     for i, l in enumerate(text.split('\n')):
-        s = l.strip()
+        # what the grammar sees of a line: indentation (blanks, tabs) and trailing blanks removed; other white space
+        # (U+0085, U+00A0, ...) is only stripped at the two ends of the whole text
+        s = l.strip(' \t')
         if ATTACH_RE.match(s):
             p = Parser(s + '\n', actions=None, types=types)
             try:
@@ -76,7 +78,7 @@ def neutralise_attachment_prefixes(text):
     ls = text.split('\n')
     for i in attachment_prefix_lines(text):
         l = ls[i]
-        k = len(l) - len(l.lstrip())
+        k = len(l) - len(l.lstrip(' \t'))
         ls[i] = l[:k] + '\\' + l[k:]
     return '\n'.join(ls)
 
@@ -89,6 +91,7 @@ def classify_c01(text, root, prefix, res):
     """finding id for a raising conversion, or None. Causal: the input is repaired for that finding
     class only and must then convert."""
     exc, msg = res.get('exc'), res.get('msg', '')
+    text = text.strip()   # what pre_parse does first
     if exc == 'ParseError':
         bad = [c for c in text if not text_ok(c)]
         t2 = strip_non_xml(text) if bad else text
